@@ -289,10 +289,8 @@ func main() {
 	// when one process used many threads.
 	type plan struct{ n, fullGate, httpMax, shards int }
 	cpus := runtime.NumCPU()
-	budget := 100
 	plans := []plan{{4, 3, 4, max(1, cpus/2)}, {4, 3, 4, max(1, cpus/2)}}
 	if !quick {
-		budget = 17 * 60
 		// the layouts differ only in the template that emits Complexity() (generated!.gotpl vs
 		// root_.gotpl); every "Type.field" case of the alphabet is already reached at 4 nodes, so
 		// the deeper enumeration is spent on one layout
@@ -308,6 +306,8 @@ func main() {
 			defer wg.Done()
 			pl := plans[i]
 			_, bin := buildHarness(l, overlay, "./harness")
+			// the harness gets what is left of the internal budget (quick 150 s, thorough 20 min)
+			budget := max(10, int(time.Until(c.Deadline).Seconds())-8)
 			parts := make([]*result, pl.shards)
 			var sw sync.WaitGroup
 			for sh := 0; sh < pl.shards; sh++ {
